@@ -6,13 +6,17 @@ CONSTANT Presenters = {1, 2, 3}
 CONSTANT EpochIds = {1, 2, 3, 4, 5}
 CONSTANT MaxSteps = 12
 CONSTANT Ops <- ConcMixOps
-CONSTANT SessChecksDisabled = FALSE
+CONSTANT SessChecksDisabled = TRUE
+CONSTANT RefreshUpserts = TRUE
+CONSTANT InFlightOps = {}
 SPECIFICATION Spec
 VIEW view
 INVARIANT PwSound
 INVARIANT FastPathSound
 INVARIANT SessSound
 INVARIANT OneTimeOnce
+INVARIANT SessDisabledCookie
+INVARIANT SessDisabledOneTime
 INVARIANT TypeOK
 INVARIANT ModelTracksTruth
 INVARIANT EpochTracksFresh
